@@ -189,7 +189,7 @@ for key in ORDER:
 SE = CLASSES['SECD']['cpp']; XP = CLASSES['XPECD']['cpp']; EN = CLASSES['ENGINE']['cpp']; XO = CLASSES['XOF']['cpp']; XT = CLASSES['XT']['cpp']
 UNIT = Unit(
     name='c06_reset',
-    props=['C06'],
+    props=['C06', 'C03'],
     blocks=blocks,
     functions=functions,
     template=TEMPLATE.replace('@@FNS@@', '\n'.join(fns_txt) + '\n' + '\n'.join(harnesses)),
